@@ -42,6 +42,7 @@ type Options struct {
 	EnvCost    int // cost of a non-default environment answer (default 0)
 	MapCost    int // cost of a non-canonical map order (default 1)
 	NoShard    bool
+	OnlyKinds  []int // if set, alternatives are explored only at choice points of these kinds
 }
 
 // Stats of an exploration.
@@ -198,6 +199,17 @@ func Explore(opt Options, body func(), visit func(*Exec) bool) (Stats, error) {
 		var kids []item
 		for i := len(it.prefix); i < len(x.Points); i++ {
 			p := x.Points[i]
+			if len(opt.OnlyKinds) > 0 {
+				ok := false
+				for _, k := range opt.OnlyKinds {
+					if k == p.Kind {
+						ok = true
+					}
+				}
+				if !ok {
+					continue
+				}
+			}
 			ac := opt.altCost(p)
 			if opt.Bound >= 0 && cost+ac > opt.Bound {
 				continue
